@@ -198,14 +198,22 @@ def oracle_pair(Va, Vb, Ra, Rb, exact_zero=None):
     out['diff'] = m2 - m1
     out['fold'] = np.abs(m1 - m2)
     # penetrance: exact fractions of cells with CPM >= 1
+    band = np.zeros(Va.shape[1], dtype=bool)
+
     def ge1(R):
         tot = R.sum(axis=1)
         cnt = np.zeros(R.shape[1], dtype=int)
         for i in range(R.shape[0]):
             t = int(round(tot[i])) or 1
-            cnt += (1_000_000 * np.round(R[i]).astype(np.int64) >= t)
+            c6 = 1_000_000 * np.round(R[i]).astype(np.int64)
+            cnt += (c6 >= t)
+            # CPM in (1 - 2e-6, 1): the statistics stage counts ">= 1"
+            # with a small tolerance (C09's don't-care band); a penetrance
+            # that hinges on such a cell is not decided here
+            band[:] |= (c6 < t) & (c6 >= t * (1 - 2e-6))
         return cnt
     g1, g2 = ge1(Ra), ge1(Rb)
+    out['penetrance_in_cpm_band'] = band
     p1 = np.array([Fraction(int(c), max(1, n1)) for c in g1])
     p2 = np.array([Fraction(int(c), max(1, n2)) for c in g2])
     q1 = np.array([max(a, b) for a, b in zip(p1, p2)])
@@ -360,6 +368,9 @@ def judge(ctx, tag, d, names, genes, oracles_by_pair, th, gene_list,
                 o['fold'][j]
             near_p = abs(p - th['p_th']) <= 1e-6 * th['p_th'] or \
                 bool(o['fragile_p'][j])
+            if o['penetrance_in_cpm_band'][j]:
+                ctx.dc('penetrance_hinges_on_cpm_just_below_one')
+                continue
             near = (abs(q1 - th['q1_th']) < 1e-9 or
                     abs(qd - th['qdiff_th']) < 1e-9 or
                     abs(fold - th['log2_fold_th']) < 1e-9)
